@@ -3,40 +3,18 @@
 // trial: it returns Ok(true) / Ok(false) / Err and may read from the borrowed input).
 use super::*;
 use crate::input::Ref;
-use std::io::Read;
 
 // outcome per trial: 0 = Ok(false), 1 = Ok(true), 2 = Err
 static mut OUTCOME: [u8; 4] = [0; 4];
 static mut CALLS: [u8; 4] = [0; 4];
 static mut ORDER_OK: bool = true;
 static mut NEXT: usize = 0;
-static mut READ_SOME: bool = false;
-static mut REWOUND_OK: bool = true;
-static mut SAW_READER: u8 = 0;
-static mut SAW_SLICE: u8 = 0;
 
-static mut DATA: [u8; 3] = [0; 3];
-
-fn trial(i: usize, r: Ref) -> io::Result<bool> {
+fn trial(i: usize, _r: Ref) -> io::Result<bool> {
 	unsafe {
 		if NEXT != i { ORDER_OK = false; }
 		NEXT = i + 1;
 		CALLS[i] += 1;
-		if READ_SOME {
-			// every trial must see the input from its first byte again, whatever earlier trials consumed
-			match r {
-				Ref::Slice(b) => { SAW_SLICE += 1; if b.len() != 3 || b[0] != DATA[0] || b[2] != DATA[2] { REWOUND_OK = false; } }
-				Ref::Reader(rd) => {
-					SAW_READER += 1;
-					let mut one = [0u8; 2];
-					let want: usize = if i == 1 { 2 } else { 1 };
-					match rd.read(&mut one[..want]) {
-						Ok(n) => { if n == 0 || one[0] != DATA[0] || (n == 2 && one[1] != DATA[1]) { REWOUND_OK = false; } }
-						Err(_) => { REWOUND_OK = false; }
-					}
-				}
-			}
-		}
 		match OUTCOME[i] { 0 => Ok(false), 1 => Ok(true), _ => Err(io::ErrorKind::Other.into()) }
 	}
 }
@@ -84,24 +62,3 @@ fn detect_order_and_totality() {
 	check_result(o, r);
 }
 
-/// Reader-backed handle, all four trials run (each says "not mine") and each consumes a different number of
-/// bytes: every trial gets a freshly rewound borrow, i.e. sees the stream from byte 0 again (stream contents
-/// symbolic; the trial outcomes are fixed because the full outcome matrix is covered by the harness above and
-/// the combination with a real capture reader behind Box<dyn Read> exhausts CBMC's memory).
-#[kani::proof]
-#[kani::unwind(5)]
-#[kani::stub(crate::msgpack::input_matches, mp)]
-#[kani::stub(crate::json::input_matches, js)]
-#[kani::stub(crate::yaml::input_matches, ym)]
-#[kani::stub(crate::toml::input_matches, tm)]
-fn detect_trials_get_rewound_reader() {
-	let data: [u8; 3] = kani::any();
-	unsafe { OUTCOME = [0, 0, 0, 0]; READ_SOME = true; DATA = data; }
-	let mut h = input::Handle::from_reader(&data[..]);
-	let r = detect_format(&mut h);
-	assert!(unsafe { REWOUND_OK }, "a trial did not see the stream from its first byte");
-	assert!(matches!(r, Ok(None)));
-	assert!(unsafe { SAW_READER } + unsafe { SAW_SLICE } == 4);
-	kani::cover!(unsafe { SAW_READER } >= 2, "at least two trials read from the reader");
-	std::mem::forget(r);
-}
